@@ -199,6 +199,25 @@ func VerifC19Provide() {
 	}
 	ctx, cancel := context.WithCancel(context.Background())
 	vCancelAtJoin, vCancel = cancelled, cancel
+	// "prior"=1: an earlier call on the same selector found every primary unavailable and was served by a fallback (state a
+	// multi client carries from call to call must not decide this call)
+	if vrt.Param("prior") == 1 && nf > 0 {
+		if sel == nil {
+			sel = newBestSelector(time.Hour)
+		}
+		var pp, pf []Client
+		for i := 0; i < np; i++ {
+			pp = append(pp, &vNode{id: i, kind: 3, code: code})
+		}
+		for i := 0; i < nf; i++ {
+			pf = append(pf, &vNode{id: 10 + i, kind: 0, code: code})
+		}
+		saved := vCancelAtJoin
+		vCancelAtJoin = false
+		pout, perr := provide(ctx, pp, pf, func(_ context.Context, a provideArgs) (int, error) { return a.client.(*vNode).outcome() }, nil, sel)
+		vCancelAtJoin = saved
+		vrt.Assert("the earlier call is served by a fallback", perr == nil && pout >= 110)
+	}
 	var out int
 	var err error
 	vrt.MustReturn(func() {
